@@ -16,6 +16,7 @@ import (
 	"regexp"
 	"sort"
 	"strings"
+	"sync"
 	"time"
 
 	"go.opentelemetry.io/collector/component"
@@ -498,6 +499,39 @@ type Case struct {
 	Mode Mode  `json:"mode"`
 	Seed int   `json:"seed"` // 0 = all-zero key bytes
 	Docs []Doc `json:"docs"`
+	// Ctx: 0 background, 1 already cancelled, k>1: turns cancelled after k calls of Err()
+	Ctx int `json:"ctx,omitempty"`
+}
+
+// flakyCtx reports cancellation after a number of Err() calls.
+type flakyCtx struct {
+	context.Context
+	left int
+	done chan struct{}
+}
+
+func (c *flakyCtx) Err() error {
+	if c.left > 0 {
+		c.left--
+		if c.left == 0 {
+			close(c.done)
+		}
+		return nil
+	}
+	return context.Canceled
+}
+func (c *flakyCtx) Done() <-chan struct{} { return c.done }
+
+func caseCtx(k int) context.Context {
+	switch {
+	case k == 1:
+		ctx, cancel := context.WithCancel(context.Background())
+		cancel()
+		return ctx
+	case k > 1:
+		return &flakyCtx{Context: context.Background(), left: k, done: make(chan struct{})}
+	}
+	return context.Background()
 }
 
 func (c Case) String() string {
@@ -543,7 +577,8 @@ func runCase(c Case, counters map[string]int) (viol []string) {
 		listed[k] = true
 	}
 	all := c.Mode.All && len(c.Mode.List) == 0
-	ctx := context.Background()
+	bg := context.Background()
+	ctx := caseCtx(c.Ctx)
 	var got any
 	tn, _ := consumer.NewTraces(func(_ context.Context, td ptrace.Traces) error { got = td; return nil })
 	ln, _ := consumer.NewLogs(func(_ context.Context, ld plog.Logs) error { got = ld; return nil })
@@ -568,11 +603,11 @@ func runCase(c Case, counters map[string]int) (viol []string) {
 			switch d.Sig {
 			case "traces":
 				if tp == nil {
-					tp, err = f.CreateTraces(ctx, settings(), cfg, tn)
+					tp, err = f.CreateTraces(bg, settings(), cfg, tn)
 					if err != nil {
 						return
 					}
-					tp.Start(ctx, componenttest.NewNopHost())
+					tp.Start(bg, componenttest.NewNopHost())
 				}
 				wo.traces(buildTraces(d))
 				err = tp.ConsumeTraces(ctx, buildTraces(d))
@@ -581,11 +616,11 @@ func runCase(c Case, counters map[string]int) (viol []string) {
 				}
 			case "logs":
 				if lp == nil {
-					lp, err = f.CreateLogs(ctx, settings(), cfg, ln)
+					lp, err = f.CreateLogs(bg, settings(), cfg, ln)
 					if err != nil {
 						return
 					}
-					lp.Start(ctx, componenttest.NewNopHost())
+					lp.Start(bg, componenttest.NewNopHost())
 				}
 				wo.logs(buildLogs(d))
 				err = lp.ConsumeLogs(ctx, buildLogs(d))
@@ -594,11 +629,11 @@ func runCase(c Case, counters map[string]int) (viol []string) {
 				}
 			case "metrics":
 				if mp == nil {
-					mp, err = f.CreateMetrics(ctx, settings(), cfg, mn)
+					mp, err = f.CreateMetrics(bg, settings(), cfg, mn)
 					if err != nil {
 						return
 					}
-					mp.Start(ctx, componenttest.NewNopHost())
+					mp.Start(bg, componenttest.NewNopHost())
 				}
 				wo.metrics(buildMetrics(d))
 				err = mp.ConsumeMetrics(ctx, buildMetrics(d))
@@ -610,6 +645,10 @@ func runCase(c Case, counters map[string]int) (viol []string) {
 		if pan != "" {
 			add("document %d: processor panicked: %s", di, pan)
 			continue
+		}
+		if (err != nil || got == nil) && c.Ctx != 0 {
+			counters["documents_refused_under_done_context"]++
+			continue // refusing a request whose context is done drops nothing downstream
 		}
 		if err != nil || got == nil {
 			add("document %d: not passed to the next consumer (err=%v)", di, err)
@@ -711,6 +750,16 @@ func cases(tier string) []Case {
 					if seed <= 1 || thorough {
 						for b := 0; b < NumAttrArch; b++ {
 							out = append(out, Case{Mode: m, Seed: seed, Docs: []Doc{{Sig: sig, Shape: 3, A: []int{a, b}}, {Sig: sig, Shape: 7, A: []int{b, a, 12}}, {Sig: sig, Shape: 0, A: []int{b}}}})
+						}
+					}
+				}
+			}
+			// request contexts that are done, or become done while the batch is processed
+			if seed == 1 {
+				for _, cx := range []int{1, 2, 6} {
+					for _, sig := range []string{"traces", "logs", "metrics"} {
+						for _, a := range []int{2, 3, 6, 7, 12} {
+							out = append(out, Case{Mode: m, Seed: seed, Ctx: cx, Docs: []Doc{{Sig: sig, Shape: 3, A: []int{a, 4}}, {Sig: sig, Shape: 7, A: []int{a}}}})
 						}
 					}
 				}
@@ -833,7 +882,11 @@ func main() {
 	replayDir := flag.String("replaydir", "replay", "")
 	replay := flag.String("replay", "", "")
 	knownPath := flag.String("known", "", "")
+	racep := flag.Bool("racepass", false, "concurrent Consume calls on one instance (build with -race)")
 	flag.Parse()
+	if *racep {
+		os.Exit(racePass())
+	}
 	start := time.Now()
 	counters := map[string]int{}
 	run := func(c Case) []string {
@@ -933,7 +986,7 @@ func main() {
 			"coverage": map[string]any{
 				"states": len(cs), "transitions": docs, "traces_validated_against_impl": len(cs),
 				"samples":           []any{cs[0], cs[len(cs)/2]},
-				"processor_instances": len(cs), "documents": docs, "counters": counters, "violation_classes": classes, "exhaustive": true,
+				"race_pass": readRacePass(), "processor_instances": len(cs), "documents": docs, "counters": counters, "violation_classes": classes, "exhaustive": true,
 				"explanation": "bounded-exhaustive enumeration of (mode, key seed, 3-document life of one processor instance) over attribute archetypes and container shapes, plus all strings of <= 3 characters over a 5-character alphabet; states = processor instances, transitions = documents consumed; each document is compared token by token with what the next consumer received",
 			},
 			"assumptions": []string{"crypto/rand.Reader is replaced by a seeded reader so the key is owned by the harness", "documents are drawn from the grammar of engines/obfmc/main.go (small-scope hypothesis)"}}
@@ -948,4 +1001,88 @@ func main() {
 		}
 		os.Exit(1)
 	}
+}
+
+// racePass: several goroutines push documents through ONE processor instance
+// at the same time (a collector processor is called concurrently); every
+// output must equal the one obtained sequentially.  Built with -race by the
+// check script: a dynamic detector on sampled schedules.
+func racePass() int {
+	rand.Reader = &seedReader{seed: 1}
+	f := obf.NewFactory()
+	bad := 0
+	runs := 0
+	for _, mode := range []Mode{{All: true}, {All: true, List: []string{"secret"}}} {
+		cfg := f.CreateDefaultConfig().(*obf.Config)
+		cfg.EncryptAll = mode.All
+		cfg.EncryptAttributes = mode.List
+		var mu sync.Mutex
+		outs := map[string]map[string]bool{}
+		tn, _ := consumer.NewTraces(func(_ context.Context, td ptrace.Traces) error {
+			w := &walker{}
+			w.traces(td)
+			var sb strings.Builder
+			for _, t := range w.toks {
+				sb.WriteString(t.Text)
+				sb.WriteByte(0)
+			}
+			key := td.ResourceSpans().At(0).SchemaUrl()
+			mu.Lock()
+			if outs[key] == nil {
+				outs[key] = map[string]bool{}
+			}
+			outs[key][sb.String()] = true
+			mu.Unlock()
+			return nil
+		})
+		rand.Reader = &seedReader{seed: 1}
+		tp, err := f.CreateTraces(context.Background(), settings(), cfg, tn)
+		if err != nil {
+			fmt.Println("HARNESS-ERROR:", err)
+			return 2
+		}
+		docs := []Doc{{Sig: "traces", Shape: 7, A: []int{1, 2, 3, 6, 7, 8}}, {Sig: "traces", Shape: 3, A: []int{9, 10, 11}}, {Sig: "traces", Shape: 5, A: []int{8, 8, 2}}}
+		var wg sync.WaitGroup
+		for g := 0; g < 8; g++ {
+			wg.Add(1)
+			go func(g int) {
+				defer wg.Done()
+				for i := 0; i < 30; i++ {
+					d := docs[(g+i)%len(docs)]
+					td := buildTraces(d)
+					td.ResourceSpans().At(0).SetSchemaUrl(fmt.Sprintf("doc-%d", (g+i)%len(docs)))
+					_ = tp.ConsumeTraces(context.Background(), td)
+				}
+			}(g)
+		}
+		wg.Wait()
+		runs += 240
+		for k, set := range outs {
+			if len(set) != 1 {
+				fmt.Printf("C17: document %s obfuscated concurrently by one instance gave %d different outputs (substitutes must depend only on the original)\n", k, len(set))
+				bad++
+			}
+		}
+	}
+	fmt.Printf("racepass: %d concurrent Consume calls on shared instances, %d documents with diverging outputs\n", runs, bad)
+	if out := os.Getenv("RACEPASS_OUT"); out != "" {
+		b, _ := json.Marshal(map[string]any{"concurrent_consume_calls": runs, "documents_with_diverging_outputs": bad})
+		os.WriteFile(out, b, 0o644)
+	}
+	if bad > 0 {
+		return 3
+	}
+	return 0
+}
+
+func readRacePass() any {
+	if p := os.Getenv("RACEPASS_OUT"); p != "" {
+		if b, err := os.ReadFile(p); err == nil {
+			var m map[string]any
+			json.Unmarshal(b, &m)
+			m["note"] = "free-running -race build: 8 goroutines x 30 Consume calls on one instance per mode; outputs compared per document (dynamic detector, sampled schedules)"
+			return m
+		}
+	}
+	return nil
 }
